@@ -26,6 +26,7 @@ func runNI(c *Ctx) (obls []Obl) {
 	niWriters(c, a)
 	niHeaders(c, a)
 	niCreator(c, a)
+	niFormat(c, a)
 	return
 }
 
@@ -92,6 +93,16 @@ func niHeaders(c *Ctx, a *flAgg) {
 			}
 			if (strings.Contains(extra, "SleepString(") != !sleepEmpty) || (strings.Contains(extra, "[locked]") != locked) || (strings.Contains(extra, "createdByString(") != !createdEmpty) {
 				okAll, why = false, "sleep range, lock marker or creator are not shown exactly when present"
+			}
+			// in the order: sleep range, lock marker, creator (then the race note)
+			last := -1
+			for _, mark := range []string{"SleepString(", "[locked]", "createdByString(", " Race "} {
+				if i := strings.Index(extra, mark); i >= 0 {
+					if i < last {
+						okAll, why = false, "the annotations are not in the order sleep range, lock, creator: "+extra
+					}
+					last = i
+				}
 			}
 		}
 		if okAll && n > 0 {
@@ -696,4 +707,137 @@ func niCreator(c *Ctx, a *flAgg) {
 		}
 	}
 	c.stat("NI", "creator_index_sites", n)
+}
+
+
+// niFormat (NI-format): which path a frame line shows, per path format:
+// full = the local path if known, else the remote one; rel = the relative
+// path if known, else as full; base = the file name. Decided on the paths of
+// formatCall with the format fixed to each constant and every combination of
+// known/unknown paths.
+func niFormat(c *Ctx, a *flAgg) {
+	fn := c.MustFunc(a.obls, "NI-format", "internal", "pathFormat", "formatCall")
+	if fn == nil || len(fn.Params) != 2 {
+		return
+	}
+	exprHome = fn.Pkg.Pkg
+	pf, call := fn.Params[0].Name(), fn.Params[1].Name()
+	consts := map[string]int64{}
+	for _, n := range []string{"fullPath", "relPath", "basePath"} {
+		if k, ok := fn.Pkg.Pkg.Scope().Lookup(n).(*types.Const); ok {
+			v, _ := constant.Int64Val(k.Val())
+			consts[n] = v
+		} else {
+			a.und("NI-format", "formatCall/consts", "path format constant "+n+" not found", fn.Pos())
+			return
+		}
+	}
+	fields := []string{"RelSrcPath", "LocalSrcPath", "RemoteSrcPath", "SrcName"}
+	want := func(format string, relKnown, localKnown bool) string {
+		switch format {
+		case "basePath":
+			return "SrcName"
+		case "relPath":
+			if relKnown {
+				return "RelSrcPath"
+			}
+		}
+		if localKnown {
+			return "LocalSrcPath"
+		}
+		return "RemoteSrcPath"
+	}
+	for _, format := range []string{"fullPath", "relPath", "basePath"} {
+		val := consts[format]
+		x := &SPE{Fn: fn, MaxVisits: 2}
+		x.Decide = func(atom *Expr, _ *pathState) (bool, bool) {
+			if atom.Op != OpBin || len(atom.Args) != 2 {
+				return false, false
+			}
+			side := func(e *Expr) (int64, bool) {
+				if e.Op == OpParam && e.Name == pf {
+					return val, true
+				}
+				if e.Op == OpConvert && len(e.Args) == 1 && e.Args[0].Op == OpParam && e.Args[0].Name == pf {
+					return val, true
+				}
+				return e.intConst()
+			}
+			l, ok1 := side(atom.Args[0])
+			r, ok2 := side(atom.Args[1])
+			if !ok1 || !ok2 || !(atom.Args[0].mentions(func(y *Expr) bool { return y.Op == OpParam && y.Name == pf }) || atom.Args[1].mentions(func(y *Expr) bool { return y.Op == OpParam && y.Name == pf })) {
+				return false, false
+			}
+			switch atom.Tok {
+			case token.EQL:
+				return l == r, true
+			case token.LSS:
+				return l < r, true
+			}
+			return false, false
+		}
+		x.Explore()
+		okAll, n := true, 0
+		why := ""
+		for _, p := range x.Paths {
+			if p.Term != "return" || len(p.Results) != 1 {
+				okAll, why = false, "a path does not return"
+				continue
+			}
+			n++
+			known := map[string]bool{"RelSrcPath": true, "LocalSrcPath": true}
+			decided := map[string]bool{}
+			for _, lt := range p.Lits {
+				as := lt.Atom.String()
+				for _, f := range []string{"RelSrcPath", "LocalSrcPath"} {
+					if as == "("+call+"."+f+" == \"\")" {
+						known[f] = !lt.Pol
+						decided[f] = true
+					}
+				}
+			}
+			rs := p.Results[0].String()
+			if r := p.Results[0]; r.calleeIs("fmt", "Sprintf") && len(r.Args) > 2 && r.Args[2].Op == OpSlice {
+				// the operands live in the variadic array
+				arr := r.Args[2].Args[0].String()
+				for i := 0; i < 8; i++ {
+					if v := p.Cells[fmt.Sprintf("%s[%d]", arr, i)]; v != nil {
+						rs += " " + v.String()
+					}
+				}
+			}
+			shown := ""
+			cnt := 0
+			for _, f := range fields {
+				if strings.Contains(rs, call+"."+f) {
+					shown = f
+					cnt++
+				}
+			}
+			if cnt != 1 || !strings.Contains(rs, call+".Line") {
+				okAll, why = false, "a frame line is not made of exactly one path and the line number: "+rs
+				continue
+			}
+			// every completion of the undecided facts must agree with the reference
+			for _, rk := range []bool{true, false} {
+				if decided["RelSrcPath"] && rk != known["RelSrcPath"] {
+					continue
+				}
+				for _, lk := range []bool{true, false} {
+					if decided["LocalSrcPath"] && lk != known["LocalSrcPath"] {
+						continue
+					}
+					if w := want(format, rk, lk); w != shown {
+						okAll = false
+						why = fmt.Sprintf("with the relative path %s and the local path %s the line shows %s, expected %s", map[bool]string{true: "known", false: "unknown"}[rk], map[bool]string{true: "known", false: "unknown"}[lk], shown, w)
+					}
+				}
+			}
+		}
+		if okAll && n > 0 {
+			a.ok("NI-format", "formatCall/"+format, "the path shown is the one documented for this format, with the fall-backs for unknown paths", fn.Pos())
+		} else {
+			a.bad("NI-format", "formatCall/"+format, "format "+format+": "+why+": frames that cannot be made relative/local lose their directory (or show a path of another kind)", fn.Pos())
+		}
+	}
 }
